@@ -195,7 +195,8 @@ set_option maxRecDepth 100000 in
 /-- The facts the theorems rest on, as extracted from this tree (both stacks): the client stores
 an object of its own under each of its two keys (F5 repaired) and only after `readFinished`
 (F16 repaired); loadSession looks the session up by destination and re-verifies its recorded
-certificates (F13 repaired); the deferred cleanup removes a loaded session on any error under
+certificates (F13 repaired) and hands the handshake a copy of its own (F40 repaired: an eviction
+during the handshake cannot wipe the session in use); the deferred cleanup removes a loaded session on any error under
 both keys; the server decides on resumption by the guards listed (identifier known, client
 authentication policy, version, suite offered by the client, suite enabled by the server),
 stores a session once — after the client's Finished is verified and before its own is sent —
@@ -217,6 +218,7 @@ theorem C10_facts :
     Facts.tlcp.resCleanupKeys = ["dst", "sessionId"] ∧ Facts.dtlcp.resCleanupKeys = ["dst", "sessionId"] ∧
     Facts.tlcp.resCleanupPutsNil = true ∧ Facts.dtlcp.resCleanupPutsNil = true ∧
     Facts.tlcp.resLoadKey = "dest" ∧ Facts.dtlcp.resLoadKey = "dest" ∧
+    Facts.tlcp.resLoadClones = true ∧ Facts.dtlcp.resLoadClones = true ∧
     Facts.tlcp.resServerGuards.drop 1 = ["len(hs.clientHello.sessionId) == 0", "!ok", "needClientCerts && !sessionHasClientCerts",
       "sessionHasClientCerts && c.config.ClientAuth == NoClientCert", "c.vers != hs.sessionState.vers", "!cipherSuiteOk", "hs.suite == nil"] ∧
     Facts.dtlcp.resServerGuards.drop 1 = Facts.tlcp.resServerGuards.drop 1 ∧
